@@ -20,7 +20,7 @@ def sh(cmd, **kw):
 
 
 def run_suite(tree, build):
-    r = sh("cmake -S %s -B %s -G Ninja -DCMAKE_BUILD_TYPE=Release -DDRACO_TESTS=ON -DCMAKE_CXX_FLAGS=-Wno-error >/dev/null 2>&1 && ninja -C %s 2>&1 | tail -3" % (tree, build, build))
+    r = sh("cmake -S %s -B %s -G Ninja -DCMAKE_BUILD_TYPE=Release -DDRACO_TESTS=ON -DDRACO_GOOGLETEST_PATH=/repo/third_party/googletest -DCMAKE_CXX_FLAGS=-Wno-error >/dev/null 2>&1 && ninja -C %s 2>&1 | tail -3" % (tree, build, build))
     if not os.path.exists(build + "/draco_tests"):
         return {"built": False, "log": r.stdout[-2000:]}
     passed, failed = 0, []
